@@ -12,19 +12,24 @@
       the same value (`Num.SameValue`), both well-formed Go numbers (or identical); with `nf = true` no floats.
       Outcomes are related by `RR (VR nf)`: values related again, or the *same* failure.
       The theorem holds for every expression all of whose operators are congruent (`TCongr`).
-   2. the operators that are congruent outright: the comparison operators, unary minus, every builtin except
-      `to_string`, `sum`, `avg`, `sort` — and, on float-free documents, **`+ - * // %` without any exactness proviso**:
-      decimal128's rounding is a function of the value (`Dec.reduce_value`, `Jmes/Proofs/C14BLemmasReduce.lean`).
-      This gives the unconditional `evaluate_congr_fragment` (everything but `/`, `to_string`, `sum`, `avg`, `sort`) and
-      `evaluate_congr_fragment_float` (float leaves; no arithmetic).
+   2. the operators that are congruent outright: the comparison operators, unary minus, `abs`, `ceil`, `floor` (floats
+      included: `Jmes/Proofs/C14BLemmasFloatUn.lean`), every builtin except `to_string`, `sum`, `avg`, `sort` — and, on
+      float-free documents, **`+ - * // %` without any exactness proviso**: decimal128's rounding is a function of the
+      value (`Dec.reduce_value`, `Jmes/Proofs/C14BLemmasReduce.lean`).
+      This gives the unconditional `evaluate_congr_fragment` / `evaluate_congr_of_equiv` (float-free documents;
+      everything but `/`, `to_string`, `sum`, `avg`, `sort`) and `evaluate_congr_fragment_float` (float leaves;
+      everything but the arithmetic operators and those four builtins).
    3. the remaining operators, with their side conditions: `/` (`divide_rr_true`, exact quotients), `sum`, `avg`
       (not over a map-ordered array), `sort` (no ambiguous tie, or `.nondet` allowed), and their use on top of an
       expression of the fragment (`evaluate_divide_congr`, `evaluate_sort_congr`, `evaluate_sum_congr`).
-   4. the float fast path of `/`, `//`, `%` and `float32` (`Jmes/Proofs/C14BFloat.lean`, re-exported here).
+      `to_string` is the recorded deviation of `C14` (it prints a `json.Number`'s spelling).
+   4. the float fast path of `/`, `//`, `%` and `float32` (`Jmes/Proofs/C14BFloat.lean`, re-exported here), with the
+      recorded divergence `(2^53−1) // 1.5`.
    5. representation lemmas for the ten integer kinds and dyadic floats; the bridge from `C14`'s `Val.Equiv`.
 -/
 import Jmes.Proofs.C14BLemmasEval
 import Jmes.Proofs.C14BLemmasArith
+import Jmes.Proofs.C14BLemmasFloatUn
 import Jmes.Proofs.C14BFloat
 namespace Jmes
 namespace C14B
@@ -142,25 +147,28 @@ theorem fnCongr_plain {f : Fn} (hf : f.plain = true) : FnCongr nf f := by
     all_goals exact rfl
   · cases f <;> exact rfl
 
-/-- **unary minus on float-free operands** depends on the value only -/
-theorem negCongr_true : NegCongr true := fun _ _ h =>
-  negateVal_vr h (toFloat_none_of_vr h).1 (toFloat_none_of_vr h).2
+/-- **unary minus depends on the value only**, whatever the representation (for a float the sign is flipped exactly;
+    `NumOK` excludes the floats `±2^63`, see `C14`) -/
+theorem negCongr : NegCongr nf := fun _ _ h => negateVal_vr_any h
 
-/-- **`abs`, `ceil`, `floor` on float-free operands** depend on the value only (no side condition: the decimal
-    functions are exact) -/
-theorem fnCongr_round_true {f : Fn} (hf : f.isRound = true) : FnCongr true f := by
+theorem negCongr_true : NegCongr true := negCongr
+
+/-- **`abs`, `ceil`, `floor` depend on the value only** — no side condition: the decimal functions are exact, and so are
+    `math.Abs`/`math.Ceil`/`math.Floor` on a float (whose result, a float, is related to the decimal result on any
+    other representation of the same value) -/
+theorem fnCongr_round {f : Fn} (hf : f.isRound = true) : FnCongr nf f := by
   intro args args' h
   rcases args with _ | ⟨a, _ | ⟨b, r⟩⟩ <;> rcases args' with _ | ⟨a', _ | ⟨b', r'⟩⟩ <;>
     simp only [VRL, and_true, and_false] at h
   · cases f <;> exact rfl
-  · have h1 := (toFloat_none_of_vr h).1
-    have h2 := (toFloat_none_of_vr h).2
-    cases f
-    case abs => exact numAbs_rr h h1 h2
-    case ceil => exact numCeil_rr h h1 h2
-    case floor => exact numFloor_rr h h1 h2
+  · cases f
+    case abs => exact numAbs_rr_any h
+    case ceil => exact numCeil_rr_any h
+    case floor => exact numFloor_rr_any h
     all_goals exact absurd hf (by decide)
   · cases f <;> first | exact rfl | exact absurd hf (by decide)
+
+theorem fnCongr_round_true {f : Fn} (hf : f.isRound = true) : FnCongr true f := fnCongr_round hf
 
 -- -2.50 as json.Number and as decimal -25e-1: `abs`, `ceil`, `floor`, unary minus agree in value
 example : (match numAbs (.num (.jnum [0x2D, 0x32, 0x2E, 0x35, 0x30])), numAbs (.num (.dec (.fin true 25 (-1)))) with
@@ -238,9 +246,10 @@ def Tree.NoDiv (t : Tree) : Prop :=
   t.Ops (fun op => op ≠ .div) (fun f => f.plain = true ∨ f.isRound = true) True
     (fun v => v.Valued ∧ v.NoFloat)
 
-/-- … when floats may occur: moreover no unary minus, `abs`, `ceil`, `floor` -/
+/-- … when floats may occur: no arithmetic operator at all (two floats are added in binary64, anything else in
+    decimal128: see section 6 for what holds then); unary minus, `abs`, `ceil`, `floor` are still allowed -/
 def Tree.NoArithF (t : Tree) : Prop :=
-  t.Ops (fun op => op.isCmp = true) (fun f => f.plain = true) False (fun v => v.Valued)
+  t.Ops (fun op => op.isCmp = true) (fun f => f.plain = true ∨ f.isRound = true) True (fun v => v.Valued)
 
 namespace C14B
 open C14
@@ -286,7 +295,7 @@ theorem tcongr_of_noDiv {t : Tree} (h : t.NoDiv) : TCongr true t :=
     (fun v h => vr_self v h.1 (fun _ => h.2)) t h
 
 theorem tcongr_of_noArithF {t : Tree} (h : t.NoArithF) : TCongr false t :=
-  Tree.Ops.mono (fun _ h => opCongr_cmp h) (fun _ h => fnCongr_plain h) (fun h => h.elim)
+  Tree.Ops.mono (fun _ h => opCongr_cmp h) (fun _ h => h.elim fnCongr_plain fnCongr_round) (fun _ => negCongr)
     (fun v h => vr_self v h (fun e => by cases e)) t h
 
 /-- **Representation independence without side conditions (float-free documents).**  For every expression without
@@ -299,9 +308,10 @@ theorem evaluate_congr_fragment {n : INode} (hn : (desugar n).NoDiv) {d d' : Val
     RR (VR true) (evaluate n d) (evaluate n d') :=
   evaluate_congr (tcongr_of_noDiv hn) h
 
-/-- **… with `float64` / `float32` leaves** (each float exactly convertible to decimal128 and not `±2^63`): the same,
-    for expressions that moreover do not use unary minus, `abs`, `ceil`, `floor`.  A float result is related to a
-    decimal result of the same value. -/
+/-- **… with `float64` / `float32` leaves** (each float with a 53-bit significand, exactly convertible to decimal128
+    and not `±2^63`): the same, for expressions without arithmetic operators.  Comparisons, unary minus, `abs`, `ceil`,
+    `floor`, `max`, `min`, `sort_by`, … are all exact on floats; a float result is related to the decimal result of
+    the same value on another representation. -/
 theorem evaluate_congr_fragment_float {n : INode} (hn : (desugar n).NoArithF) {d d' : Val} (h : VR false d d') :
     RR (VR false) (evaluate n d) (evaluate n d') :=
   evaluate_congr (tcongr_of_noArithF hn) h
@@ -441,6 +451,13 @@ theorem evaluate_congr_of_equiv {n : INode} (hn : (desugar n).NoDiv) {d d' : Val
       (evaluate n d = evaluate n d' ∧ ∀ v, evaluate n d ≠ .ok v) :=
   resEquiv_of_rr (evaluate_congr_fragment hn (vr_of_equiv d d' h hd hd' (fun _ => ⟨hf, hf'⟩)))
 
+/-- … and with float leaves (well-formed floats, see `FOK`): for every expression without arithmetic operators -/
+theorem evaluate_congr_of_equiv_float {n : INode} (hn : (desugar n).NoArithF) {d d' : Val} (h : Val.Equiv d d')
+    (hd : d.AllOK) (hd' : d'.AllOK) :
+    ResEquiv (evaluate n d) (evaluate n d') ∨
+      (evaluate n d = evaluate n d' ∧ ∀ v, evaluate n d ≠ .ok v) :=
+  resEquiv_of_rr (evaluate_congr_fragment_float hn (vr_of_equiv d d' h hd hd' (fun e => by cases e)))
+
 /-! ### a concrete instance: `a + b * 2 < c` on `{a: 1 (uint8), b: "1.50" (json.Number), c: 5 (int64)}` and on
     `{a: 1.0, b: 1.5, c: 50e-1}` (decimals) -/
 
@@ -476,6 +493,42 @@ attribute [irreducible] exNode exDoc exDoc'
 /-- the theorem applies to that pair of documents -/
 theorem ex_related : RR (VR true) (evaluate exNode exDoc) (evaluate exNode exDoc') :=
   evaluate_congr_fragment exNode_noDiv exDoc_vr
+
+/-! ### … and with floats: `abs(-a) < ceil(b)` on `{a: 2.5 (float64), b: 2.25 (float32)}` and on
+    `{a: "2.50" (json.Number), b: 225e-2 (decimal)}` -/
+
+def exNodeF : INode := .binop .lt (.call .abs [.negate (.field [0x61])]) (.call .ceil [.field [0x62]])
+def exDocF : Val := .obj [([0x61], .num (.f64 (.fin false 5 (-1)))), ([0x62], .num (.f32 (.fin false 9 (-2))))]
+def exDocF' : Val := .obj [([0x61], .num (.jnum [0x32, 0x2E, 0x35, 0x30])), ([0x62], .num (.dec (.fin false 225 (-2))))]
+
+theorem exNodeF_noArithF : (desugar exNodeF).NoArithF := by
+  simp only [exNodeF, desugar, desugarList, Tree.NoArithF, Tree.Ops, Tree.OpsL, and_true]
+  exact ⟨rfl, .inr rfl, .inr rfl⟩
+
+theorem fok_small_dyadic (n : Bool) (m k : Nat) (hodd : m % 2 = 1) (hk : 0 < k) (hx : m * 5 ^ k ≤ Dec.MAXSIG)
+    (hlo : k ≤ 6176) (hm : m < 2 ^ 53) : FOK (.fin n m (-(k : Int))) := by
+  refine ⟨⟨.inl hodd, ⟨fun h => by omega, fun _ => ⟨?_, by unfold Dec.EMIN; omega⟩⟩, ?_⟩, ?_, hm⟩
+  · have : (-(-(k : Int))).toNat = k := by omega
+    rw [this]; exact hx
+  · intro h; simp only [F64.fin.injEq] at h; omega
+  · intro h; simp only [F64.fin.injEq] at h; omega
+
+theorem exDocF_vr : VR false exDocF exDocF' := by
+  simp only [exDocF, exDocF', VR, VRF, and_true, true_and]
+  refine ⟨⟨⟨.fin false 25 (-1), .fin false 25 (-1), by decide, by decide, by decide⟩, .inl ⟨?_, trivial⟩, fun h => by cases h⟩,
+    ⟨⟨.fin false 225 (-2), _, by decide, rfl, by decide⟩, .inl ⟨?_, ?_⟩, fun h => by cases h⟩⟩
+  · exact fok_small_dyadic false 5 1 (by decide) (by decide) (by decide) (by decide) (by decide)
+  · exact fok_small_dyadic false 9 2 (by decide) (by decide) (by decide) (by decide) (by decide)
+  · simp only [NumOK, Dec.Bounded]; decide
+
+-- both evaluate to `true` (2.5 < 3); on the float side `abs(-a)` is the float 2.5 and `ceil(b)` the float 3
+example : (match evaluate exNodeF exDocF, evaluate exNodeF exDocF' with
+    | .ok (.bool b), .ok (.bool b') => b && b' | _, _ => false) = true := by decide
+
+attribute [irreducible] exNodeF exDocF exDocF'
+
+theorem exF_related : RR (VR false) (evaluate exNodeF exDocF) (evaluate exNodeF exDocF') :=
+  evaluate_congr_fragment_float exNodeF_noArithF exDocF_vr
 
 /-! ## 5. representation lemmas -/
 
@@ -588,27 +641,4 @@ end Jmes
 
 section AxiomCheck
 open Jmes.C14B
-#print axioms Jmes.Dec.reduce_value
-#print axioms opCongr_cmp
-#print axioms opCongr_arith_true
-#print axioms fnCongr_plain
-#print axioms fnCongr_round_true
-#print axioms negCongr_true
-#print axioms seval_congr
-#print axioms ieval_congr
-#print axioms evaluate_congr
-#print axioms evaluate_congr_fragment
-#print axioms evaluate_congr_fragment_float
-#print axioms evaluate_congr_of_equiv
-#print axioms evaluate_sort_congr
-#print axioms evaluate_sum_congr
-#print axioms evaluate_divide_congr
-#print axioms vr_of_equiv
-#print axioms toDecimal_intKind_exact
-#print axioms toDecimal_intKind_inj
-#print axioms toDecimal_f64_int_exact
-#print axioms toDecimal_f32_dyadic
-#print axioms float_idiv_sameValue
-#print axioms float_mod_sameValue
-#print axioms float_div_sameValue
 end AxiomCheck
